@@ -77,6 +77,17 @@ pub fn props() -> Vec<PropCfg> {
             stub: R_STUB,
         },
         PropCfg {
+            id: "C07",
+            profiles: &[("C07", 3), ("C05", 1)],
+            quick_runs: 8000,
+            thorough_runs: 500_000,
+            level: "exploration",
+            rule: "profile C07 (3/4 of the cases): direct Roll::roll calls of the real FixedWindowRoller / DeleteRoller, 1-12 successive rolls over generated trees (pre-existing archives inside, beyond and below the window, gaps, look-alike bystanders; patterns with the index in the file name, in a directory, repeated, under $ENV, on a second mount), whole tree compared with the window model after every roll; profile C05 (1/4): the same roller invariants observed inside full rolling-appender histories; non-trivial = at least one roll completed; distinct = distinct event-log fingerprints",
+            assumptions: &["no fault injected (faults are C08's)", "gzip patterns only in the thorough tier (gzip build); zstd not exercised"],
+            real: &["FixedWindowRoller::roll / rotate / move_file (incl. real EXDEV copy+delete on a second mount)", "DeleteRoller", "expand_env_vars", "kernel tmpfs + second filesystem"],
+            stub: &["none for profile C07 (the roller is called directly); profile C05 as in world R"],
+        },
+        PropCfg {
             id: "C08",
             profiles: &[("C08", 3), ("C08-obst", 1)],
             quick_runs: 400,
